@@ -20,6 +20,13 @@ SPEC2 = r'''
 impl PartialEqSpecImpl for CastlingType { open spec fn obeys_eq_spec() -> bool { true } open spec fn eq_spec(&self, o: &CastlingType) -> bool { *self == *o } }
 impl PartialEqSpecImpl for MoveGenerationMode { open spec fn obeys_eq_spec() -> bool { true } open spec fn eq_spec(&self, o: &MoveGenerationMode) -> bool { *self == *o } }
 
+// the castling right named t, as recorded in the position
+pub open spec fn right(b: &BoardState, t: CastlingType) -> bool {
+    match t {
+        CastlingType::WhiteKingSide => b.white_king_side_castle, CastlingType::WhiteQueenSide => b.white_queen_side_castle,
+        CastlingType::BlackKingSide => b.black_king_side_castle, CastlingType::BlackQueenSide => b.black_queen_side_castle,
+    }
+}
 pub open spec fn kind_idx(k: PieceKind) -> int { match k { King => 0, Queen => 1, Rook => 2, Bishop => 3, Knight => 4, Pawn => 5 } }
 pub open spec fn pidx(p: Piece) -> int { kind_idx(p.kind) + if p.color == White { 0int } else { 6int } }
 
@@ -131,40 +138,48 @@ pub proof fn lemma_placement_update(h: &ZobristHasher, bd: [[Square; 12]; 12], r
 '''
 
 ANN_swap_color = {
-      'ensures': ['*final(self) == (BoardState { to_move: opp(old(self).to_move), zobrist_key: old(self).zobrist_key ^ zobrist_hasher.side(), ..*old(self) })',
-                  'key_ok(old(self), zobrist_hasher) ==> key_ok(final(self), zobrist_hasher)'],
+      'ensures': [# position frame + effect (everything but the key): own obligation of the position properties;
+                  # exact key effect: support only (callers need it, no property states it);
+                  # key_ok preserved: own obligation of C05 / C04
+                  '@~C01,C02,C04,C13| *final(self) == (BoardState { to_move: opp(old(self).to_move), zobrist_key: final(self).zobrist_key, ..*old(self) })',
+                  '@~| final(self).zobrist_key == old(self).zobrist_key ^ zobrist_hasher.side()',
+                  '@~C05,C04| key_ok(old(self), zobrist_hasher) ==> key_ok(final(self), zobrist_hasher)'],
       'at_end': '''proof { let o = old(self); let h = zobrist_hasher;
             lemma_key_component(kp(o, h), ks(o, h), kc1(o, h), kc2(o, h), kc3(o, h), kc4(o, h), ep_hash(o, h), h.side()); }'''}
 ANN_take_away_castling_rights = {
-      'ensures': ['''*final(self) == (match castling_type {
-            CastlingType::WhiteKingSide => BoardState { white_king_side_castle: false, zobrist_key: old(self).zobrist_key ^ flag(old(self).white_king_side_castle, zobrist_hasher.castle(castling_type)), ..*old(self) },
-            CastlingType::WhiteQueenSide => BoardState { white_queen_side_castle: false, zobrist_key: old(self).zobrist_key ^ flag(old(self).white_queen_side_castle, zobrist_hasher.castle(castling_type)), ..*old(self) },
-            CastlingType::BlackKingSide => BoardState { black_king_side_castle: false, zobrist_key: old(self).zobrist_key ^ flag(old(self).black_king_side_castle, zobrist_hasher.castle(castling_type)), ..*old(self) },
-            CastlingType::BlackQueenSide => BoardState { black_queen_side_castle: false, zobrist_key: old(self).zobrist_key ^ flag(old(self).black_queen_side_castle, zobrist_hasher.castle(castling_type)), ..*old(self) },
-        })''', 'key_ok(old(self), zobrist_hasher) ==> key_ok(final(self), zobrist_hasher)'],
+      'ensures': ['''@~C01,C02,C04,C13| *final(self) == (match castling_type {
+            CastlingType::WhiteKingSide => BoardState { white_king_side_castle: false, zobrist_key: final(self).zobrist_key, ..*old(self) },
+            CastlingType::WhiteQueenSide => BoardState { white_queen_side_castle: false, zobrist_key: final(self).zobrist_key, ..*old(self) },
+            CastlingType::BlackKingSide => BoardState { black_king_side_castle: false, zobrist_key: final(self).zobrist_key, ..*old(self) },
+            CastlingType::BlackQueenSide => BoardState { black_queen_side_castle: false, zobrist_key: final(self).zobrist_key, ..*old(self) },
+        })''', '@~| final(self).zobrist_key == old(self).zobrist_key ^ flag(right(old(self), castling_type), zobrist_hasher.castle(castling_type))',
+            '@~C05,C04| key_ok(old(self), zobrist_hasher) ==> key_ok(final(self), zobrist_hasher)'],
       'body_start': '''proof { let k = old(self).zobrist_key; assert(k ^ 0u64 == k) by (bit_vector);
             let o = old(self); let h = zobrist_hasher;
             lemma_key_component(kp(o, h), ks(o, h), kc1(o, h), kc2(o, h), kc3(o, h), kc4(o, h), ep_hash(o, h), h.castle(castling_type)); }'''}
 ANN_unset_pawn_double_move = {
       'requires': ['old(self).pawn_double_move is Some ==> old(self).pawn_double_move.unwrap().1 < 12'],
-      'ensures': ['''*final(self) == (BoardState { pawn_double_move: None,
-            zobrist_key: (match old(self).pawn_double_move { Some(p) => old(self).zobrist_key ^ zobrist_hasher.ep(p.1 as int), None => old(self).zobrist_key }), ..*old(self) })''',
-            'key_ok(old(self), zobrist_hasher) ==> key_ok(final(self), zobrist_hasher)'],
+      'ensures': ['@~C01,C02,C04,C13| *final(self) == (BoardState { pawn_double_move: None, zobrist_key: final(self).zobrist_key, ..*old(self) })',
+            '@~| final(self).zobrist_key == (match old(self).pawn_double_move { Some(p) => old(self).zobrist_key ^ zobrist_hasher.ep(p.1 as int), None => old(self).zobrist_key })',
+            '@~C05,C04| key_ok(old(self), zobrist_hasher) ==> key_ok(final(self), zobrist_hasher)'],
       'body_start': '''proof { let o = old(self); let h = zobrist_hasher;
             lemma_key_component(kp(o, h), ks(o, h), kc1(o, h), kc2(o, h), kc3(o, h), kc4(o, h), ep_hash(o, h), ep_hash(o, h)); }'''}
 ANN_move_piece = {
       'requires': ['in_arr(start.0 as int, start.1 as int)', 'in_arr(end.0 as int, end.1 as int)'],
-      'ensures': ['''match old(self).board[start.0 as int][start.1 as int] {
+      'ensures': ['''@~C01,C02,C04,C13| match old(self).board[start.0 as int][start.1 as int] {
             Square::Full(p) => {
                 let b1 = upd2(old(self).board, start.0 as int, start.1 as int, Square::Empty);
-                *final(self) == (BoardState {
-                    board: upd2(b1, end.0 as int, end.1 as int, Square::Full(p)),
-                    zobrist_key: old(self).zobrist_key ^ sq_hash(zobrist_hasher, b1[end.0 as int][end.1 as int], end.0 as int, end.1 as int)
-                        ^ (zobrist_hasher.pc(p, start.0 as int, start.1 as int) ^ zobrist_hasher.pc(p, end.0 as int, end.1 as int)),
-                    ..*old(self) })
+                *final(self) == (BoardState { board: upd2(b1, end.0 as int, end.1 as int, Square::Full(p)), zobrist_key: final(self).zobrist_key, ..*old(self) })
             },
-            _ => *final(self) == *old(self),
-        }''', 'key_ok(old(self), zobrist_hasher) && on_board(start.0 as int, start.1 as int) && on_board(end.0 as int, end.1 as int) ==> key_ok(final(self), zobrist_hasher)'],
+            _ => *final(self) == (BoardState { zobrist_key: final(self).zobrist_key, ..*old(self) }),
+        }''', '''@~| final(self).zobrist_key == (match old(self).board[start.0 as int][start.1 as int] {
+            Square::Full(p) => {
+                let b1 = upd2(old(self).board, start.0 as int, start.1 as int, Square::Empty);
+                old(self).zobrist_key ^ sq_hash(zobrist_hasher, b1[end.0 as int][end.1 as int], end.0 as int, end.1 as int)
+                    ^ (zobrist_hasher.pc(p, start.0 as int, start.1 as int) ^ zobrist_hasher.pc(p, end.0 as int, end.1 as int))
+            },
+            _ => old(self).zobrist_key,
+        })''', '@~C05,C04| key_ok(old(self), zobrist_hasher) && on_board(start.0 as int, start.1 as int) && on_board(end.0 as int, end.1 as int) ==> key_ok(final(self), zobrist_hasher)'],
       'body_start': '''proof { let k = old(self).zobrist_key; assert(k ^ 0u64 == k) by (bit_vector);
             let o = old(self); let h = zobrist_hasher;
             if on_board(start.0 as int, start.1 as int) && on_board(end.0 as int, end.1 as int) {
@@ -192,15 +207,15 @@ P_HASH = ('C05', 'C01', 'C02', 'C13', 'C04')
 
 def build(g):
     g.add(types(g), SPEC2)
-    Z = dict(impl='ZobristHasher', props=P_HASH)
+    Z = dict(impl='ZobristHasher', props=P_HASH, own=('C05', 'C04'))
     g.add('impl ZobristHasher {',
           g.fn('zobrist', 'get_val_for_piece', {'ret': 'res', 'requires': ['point.0 < 12', 'point.1 < 12'], 'ensures': ['res == self.pc(piece, point.0 as int, point.1 as int)']}, qual='ZobristHasher::get_val_for_piece', **Z),
           g.fn('zobrist', 'get_val_for_castling', {'ret': 'res', 'ensures': ['res == self.castle(castling_type)']}, qual='ZobristHasher::get_val_for_castling', **Z),
           g.fn('zobrist', 'get_val_for_en_passant', {'ret': 'res', 'requires': ['file < 12'], 'ensures': ['res == self.ep(file as int)']}, qual='ZobristHasher::get_val_for_en_passant', **Z),
           g.fn('zobrist', 'get_black_to_move_val', {'ret': 'res', 'ensures': ['res == self.side()']}, qual='ZobristHasher::get_black_to_move_val', **Z),
           '}')
-    g.add('impl PieceKind {', g.fn('board', 'index', {'ret': 'res', 'ensures': ['res == kind_idx(self)']}, impl='PieceKind', qual='PieceKind::index', props=P_HASH), '}')
-    g.add('impl Piece {', g.fn('board', 'index', {'ret': 'res', 'ensures': ['res == kind_idx(self.kind)']}, impl='Piece', qual='Piece::index', props=P_HASH), '}')
+    g.add('impl PieceKind {', g.fn('board', 'index', {'ret': 'res', 'ensures': ['res == kind_idx(self)']}, impl='PieceKind', qual='PieceKind::index', props=P_HASH, own=('C05', 'C04')), '}')
+    g.add('impl Piece {', g.fn('board', 'index', {'ret': 'res', 'ensures': ['res == kind_idx(self.kind)']}, impl='Piece', qual='Piece::index', props=P_HASH, own=('C05', 'C04')), '}')
     g.add('impl BoardState {')
     for m in ['swap_color', 'take_away_castling_rights', 'unset_pawn_double_move', 'move_piece']:
         g.add(g.fn('board', m, globals()['ANN_' + m], impl='BoardState', qual='BoardState::' + m, props=P_HASH))
